@@ -8,9 +8,10 @@ const vhMaxTokens = 4 // @tier quick=4 thorough=7
 
 // the elision set of a path: one of these pairs, chosen in vhTokens (types next
 // to EOF, types far from it -- the 63rd and later symbols of a lexer --, and
-// positive types as hand-written definitions use them).  The specification
+// positive types as hand-written definitions use them, and a set that names
+// EOF itself, which is never elided).  The specification
 // below speaks of this set, not of the implementation's representation of it.
-var vhElidePairs = [][2]TokenType{{-2, -3}, {-64, 9}, {-70, 64}}
+var vhElidePairs = [][2]TokenType{{-2, -3}, {-64, 9}, {-70, 64}, {EOF, -2}}
 
 var vhElideA, vhElideB TokenType = -2, -3
 
